@@ -39,7 +39,7 @@ CHECKS = {
  "C11": ("history",
   "proptest generation of call histories over several threads; oracle = canonical output from fresh child processes (run twice)",
   "Histories of 3-12 calls (compile, pl_to_rq, pl_to_prql, permuted multi-file project) on 1-8 barrier-released threads, including failing and panicking calls; every output must equal that of the same call in a fresh process, and two fresh processes must agree.",
-  "Thread schedules are sampled, not owned; hash seeds vary by process and thread. Five defects found this way were repaired by fix: commits (hash-order dependent error text, formatting, column order, hint order, root-module choice).", "DESIGN.md §3 C11"),
+  "Thread schedules are sampled, not owned; hash seeds vary by process and thread. Six defects found this way were repaired by fix: commits (hash-order dependent error text, formatting, column order, hint order, root-module choice, relation instance credited with a CTE's sort columns).", "DESIGN.md §3 C11"),
  "C12": ("fuzz",
   "proptest token-level mutation of valid programs + structure-aware mutation of PL/RQ JSON + nesting ladder, driven in isolated worker processes; oracle = no panic / deadly signal",
   "Mutated sources and mutated PL/RQ JSON documents are driven through every public stage in worker processes (a stack overflow kills the worker, not the check); a panic or abort is a violation unless it matches a recorded panic (file + message prefix).",
